@@ -160,6 +160,39 @@ def run(spec, ctx):
                         ctx.violation("nodelist-differs-on-a-document-nested-near-the-recursion-limit", {"class": "recursion-limit", "limit": spec["limit"], "depth": depth, "shape": shape, "text": text},
                                       {"text": text, "api": api, "depth": depth, "recursion_limit": lim, "returned": len(o.value), "expected": len(want)})
                         return
+        # a bush (nodes with several container children, all holding selected content) at the bottom of a chain of
+        # one-element arrays, at depths from an eighth of the limit upwards: order and duplicates below any depth at which
+        # an implementation might change its way of walking. Expected: the chain's levels in order, then the model's
+        # nodelist for the bush alone.
+        from rt import ref_jsonpath as ref_
+
+        for depth in sorted({lim // 8, lim // 5, lim // 4 - 2, lim // 4 + 8, lim // 3, lim // 2 - 5, lim // 2 + 40, lim - 70}):
+            for text, chain_hit in (("$..[0]", True), ("$..*", True), ("$..[0, 1]", True), ("$..k", False), ("$..[1:]", False), ("$..[?@[0]]", True)):
+                bush = [[1, [2, [21]]], [3, [4], {"k": [5], "j": [6, [61]]}], {"k": [7, {"k": 8}], "j": [[9]]}, "s"]
+                levels = [bush]
+                for _ in range(depth):
+                    levels.append([levels[-1]])
+                levels.reverse()
+                doc = levels[0]
+                ast_ = {"$..[0]": ["q", "$", [["desc", [["index", 0]]]]], "$..*": ["q", "$", [["desc", [["wild"]]]]], "$..[0, 1]": ["q", "$", [["desc", [["index", 0], ["index", 1]]]]], "$..k": ["q", "$", [["desc", [["name", "k"]]]]],
+                        "$..[1:]": ["q", "$", [["desc", [["slice", 1, None, None]]]]], "$..[?@[0]]": ["q", "$", [["desc", [["filter", ["test", ["q", "@", [["child", [["index", 0]]]]]]]]]]]}[text]
+                tail = [v for _p, v in ref_.eval_query(ast_, bush)]
+                want = (levels[1:] if chain_hit else []) + tail
+                for api in ("findall", "finditer"):
+                    o = impl.call((lambda: jsonpath.findall(text, doc)) if api == "findall" else (lambda: [m.obj for m in jsonpath.finditer(text, doc)]))
+                    ctx.evaluation()
+                    ctx.cell("recursion_limit_outcomes", "limit=%s bush at depth=limit*%.2f %s" % ("default" if not spec["limit"] else spec["limit"], depth / lim, "refused" if not o.ok else "answered"))
+                    if not o.ok:
+                        if not isinstance(o.exc, RecursionError):
+                            ctx.violation("deep-document-raised:%s" % type(o.exc).__name__, {"class": "recursion-limit", "limit": spec["limit"]}, {"error": o.desc(), "depth": depth})
+                            return
+                        continue
+                    ok = len(o.value) == len(want) and all(a is b or (not isinstance(b, (dict, list)) and a == b) for a, b in zip(o.value, want))
+                    if not ok:
+                        first = next((i for i, (a, b) in enumerate(zip(o.value, want)) if not (a is b or (not isinstance(b, (dict, list)) and a == b))), min(len(o.value), len(want)))
+                        ctx.violation("nodelist-differs-below-a-deep-chain:%s" % ("length" if len(o.value) != len(want) else "order"), {"class": "recursion-limit", "limit": spec["limit"]},
+                                      {"text": text, "api": api, "chain_depth": depth, "recursion_limit": lim, "returned": len(o.value), "expected": len(want), "first_difference_at": first, "got": repr(o.value[first])[:80] if first < len(o.value) else None, "want": repr(want[first])[:80] if first < len(want) else None})
+                        return
         return
     elif kind == "scale":
         # sizes on either side of round thresholds: nesting 99..300, arrays and objects around 2^8, 2^10, 2^14, 2^16
